@@ -2,8 +2,8 @@
    Statements only.  Model: Model/TreeSolve.v (Hines elimination by recursion on the tree),
    Model/Cable.v (assembly of the cable system of a cell; schemes).  The conductance
    formulas G*.X are regenerated from /repo on every run. *)
-From Coq Require Import Reals List.
-From JV Require Import Prim TreeSolve TreeSolveFacts Cable GCellUtils CableFacts HinesArr HinesCheck HinesArrFacts HinesIdx HinesTreeFacts HinesIdxFacts.
+From Coq Require Import Reals List Lia Lra.
+From JV Require Import Prim TreeSolve TreeSolveFacts Cable GCellUtils CableFacts HinesArr HinesCheck HinesArrFacts HinesIdx HinesTreeFacts HinesIdxFacts HinesArrPositive.
 Import ListNotations.
 Local Open Scope R_scope.
 
@@ -134,8 +134,41 @@ Proof.
   intros ps ns s0 H1 H2 H3 ly tp ops D B. apply (arr_solve_correct ly tp ops s0); [apply tree_accepted; assumption | exact D | exact B].
 Qed.
 
+(* ... and those hypotheses follow from the sign structure of the system: if in every
+   compartment row the off-diagonal entries are <= 0 and the diagonal exceeds their total
+   magnitude, and in every (negated) branch-point row the weights are >= 0, sum to at most
+   -diagonal and the parent's weight is strictly below -diagonal (what the assembly produces
+   for positive conductances; evaluated on every sampled store), then no operation divides by
+   zero.  For EVERY cell and EVERY such store the solver returns THE solution. *)
+Theorem C01_array_solver_total : forall (ps ns : list nat) (s0 : store R),
+  (1 <= length ps)%nat -> (forall b, (1 <= b)%nat -> (b < length ps)%nat -> (nth b ps 0 < b)%nat) ->
+  (forall b, (b < length ps)%nat -> (1 <= nth b ns 0)%nat) ->
+  let ly := layout_of ps ns in let tp := topo_of ps in let ops := ops_of_tree ps ns in
+  Mstore ly tp s0 ->
+  let out := sv (run R Rplus Rminus Rmult Rdiv 0 1 ly ops s0) in
+  (exists y, sat ly tp s0 out y) /\
+  (forall x y, sat ly tp s0 x y ->
+     forall b k, (b < length ps)%nat -> (k < pl ly b)%nat -> x (cs ly b + k)%nat = out (cs ly b + k)%nat).
+Proof.
+  intros ps ns s0 H1 H2 H3 ly tp ops M.
+  pose proof (tree_accepted ps ns H1 H2 H3) as A.
+  destruct (no_zero_divisor ly tp (idx_wf ps ns H1 H2 H3) ops s0 A M) as [D B].
+  apply (arr_solve_correct ly tp ops s0 A D B).
+Qed.
+
 (* non-vacuity: the index structure of the cell parents [-1,0,0,1], compartments [2,1,3,2] *)
 Example C01_idx_example :
   idx_summary [0; 0; 0; 1]%nat [2; 1; 3; 2]%nat
   = ([0; 2; 5; 8; 10]%nat, ([2; 3; 3; 2]%nat, [([(1, 0); (2, 0)], [(0, 0)]); ([(3, 1)], [(1, 1)])]%nat)).
 Proof. vm_compute. reflexivity. Qed.
+
+(* non-vacuity of the sign hypothesis: a one-compartment cell with diagonal 1 *)
+Example C01_mstore_example :
+  let z := fun _ : nat => 0 in
+  Mstore (layout_of [0]%nat [1]%nat) (topo_of [0]%nat) (mkstore (fun _ => 1) z z z z z z z z z).
+Proof.
+  split.
+  - intros b k Hb Hk. cbn in Hb, Hk. assert (b = 0%nat) by lia. assert (k = 0%nat) by (subst; cbn in Hk; lia). subst.
+    unfold rowdom, lo_c, up_c, cc_c, cp_c. cbn. repeat split; lra.
+  - intros j Hj. cbn in Hj. lia.
+Qed.
